@@ -161,7 +161,7 @@ def scenario_handler(seed: int) -> list:
         async def main():
             sched = AsyncScheduler()
             builder = JobBuilder(sched, lambda f, a, k: SyncExecutor(f, a, k))
-            reaction = rng.choice(['cancel', 'pause', 'cancel'])
+            reaction = rng.choice(['cancel', 'pause', 'cancel', 'unregister'])
             w_recurring = rng.random() < 0.5
             ncb = rng.choice([1, 2])
             cell = {}
@@ -177,15 +177,29 @@ def scenario_handler(seed: int) -> list:
             else:
                 w = builder.once(Instant.from_timestamp_nanos(t0 + 3600 * S), lambda: ran.append('W'))
                 reaction = 'cancel'
-            for i in range(ncb):
-                (w._job.on_finished if reaction == 'cancel' else w._job.on_update).register(w_cb(i))
+            seen_cb = []
+            if reaction == 'unregister':
+                # the handler REMOVES the callback that has just failed from the handler list that is being run: the callbacks
+                # registered after it must still be called for this event
+                w_recurring_cbs = [w_cb(0), (lambda job: seen_cb.append('second')), (lambda job: seen_cb.append('third'))]
+                for cb in w_recurring_cbs:
+                    w._job.on_update.register(cb)
+            else:
+                for i in range(ncb):
+                    (w._job.on_finished if reaction == 'cancel' else w._job.on_update).register(w_cb(i))
             cell['done'] = False
 
             def handler(e):
                 handled.append(e.payload if isinstance(e, UserErr) else ['other', repr(e)])
+                if reaction == 'unregister' and isinstance(e, UserErr) and e.payload == ['cb', 0]:
+                    w._job.on_update.remove(w_recurring_cbs[0])
                 if isinstance(e, UserErr) and e.payload == ['exec', 'A'] and not cell['done']:
                     cell['done'] = True
-                    (w.cancel if reaction == 'cancel' else w.pause)()
+                    if reaction == 'unregister':
+                        if w_recurring:
+                            w.pause()               # an on_update event for W: its first callback fails and is removed
+                    else:
+                        (w.cancel if reaction == 'cancel' else w.pause)()
             set_exception_handler(handler)
 
             def fail_a():
@@ -213,7 +227,10 @@ def scenario_handler(seed: int) -> list:
                 bad.append(f'{tag}: exception handler received {hs}, raised were {rs}')
             if sorted(ran) != ['A', 'B', 'C']:
                 bad.append(f'{tag}: executed {ran}, expected A, B and C once each')
-            want = 'finished' if reaction == 'cancel' else 'paused'
+            if reaction == 'unregister' and w_recurring and seen_cb != ['second', 'third']:
+                bad.append(f'{tag}: the handler removed the failing callback; the callbacks after it saw the event as {seen_cb}, '
+                           "expected ['second', 'third']")
+            want = 'finished' if reaction == 'cancel' else ('paused' if (reaction == 'pause' or w_recurring) else 'running')
             if w._job.status.value != want:
                 bad.append(f'{tag}: companion job is {w._job.status.value}, expected {want}')
         try:
